@@ -116,6 +116,17 @@ impl CmdDev {
     }
 }
 
+impl CmdDev {
+    /// Complete the oldest chain held on a manual (driver-stocked) queue with the given bytes.
+    pub fn complete_manual(&mut self, q: u16, data: &[u8]) -> bool {
+        self.observe();
+        match self.qs.get_mut(&q) {
+            Some(s) if !s.held.is_empty() => s.complete_at(0, data, Some(data.len() as u32)).is_ok(),
+            _ => false,
+        }
+    }
+}
+
 impl Personality for CmdDev {
     fn step(&mut self) {
         self.in_spin = true;
